@@ -262,6 +262,7 @@ CLAIMS = {
              "only streamed/compared/measured (no buffering or reordering), the loop has no early exit; stream-chain "
              "shape rule 'every line break is followed by the indentation', guard of the first-line indentation, "
              "tokenizer separators. Decides the no-loss/no-duplication/order and indentation clauses for all texts; "
+             "the usage printer lays its key column out for exactly the arguments it prints (doPrint() arguments, shared with C18-R5); "
              "the width clause is decided by Engine C with a ghost line-length counter and the inductive loop invariant ghost <= currLength (a line exceeds the width only if it holds the indentation and a single word); blank placement is not decided.",
         note="trusts clang AST/CFG and boost::tokenizer order",
         technique="static analysis: path counting on the loop-body CFG, use analysis, stream-chain shape rules"),
@@ -274,7 +275,9 @@ CLAIMS = {
              "path; branch rules of the single-argument help incl. canonical-key lookup; one settings object per handler "
              "family (a sub-group shares the UsageParams object of its main handler; replacing a handler's settings "
              "object must re-target its description printer - this last rule reports an open, recorded finding on "
-             "Handler::setUsageParams, see known_findings.json). Layout is not decided.",
+             "Handler::setUsageParams, see known_findings.json); every call of the visibility predicate passes the current "
+             "settings in their places (column-width pass == printing pass); the description text goes through the "
+             "word loop of TextBlock, whose no-word-lost rule (C17-R1) is run here as well. Layout is not decided.",
         note="trusts clang AST/CFG; TypedArgBase property getters report the configured properties",
         also=("engine A (cfg.py)",),
         technique="static analysis: exhaustive truth table of the predicate + CFG path counting"),
@@ -302,8 +305,9 @@ CLAIMS = {
     "C11": dict(
         level="other", engine="engine C (lin.py, bounds.py)",
         text="The part of 'equals std::string cut off at the capacity' that is visible in the code, for all contents "
-             "and all in-domain argument values at once: every mutator of FixedString<L> (57 overloads: constructors, "
-             "assign/operator=, insert, erase, push_back/pop_back, append/operator+=, replace, clear, swap) is executed "
+             "and all in-domain argument values at once: every mutator of FixedString<L> (64 overloads: constructors, "
+             "assign/operator=, insert, erase, push_back/pop_back, append/operator+=, replace, clear, swap; incl. seven "
+             "overloads taking iterators of the string, for every combination of inside / end-marker positions) is executed "
              "symbolically on every path with an ordered log of its memmove/memcpy/memset/element writes; the new "
              "length is proved to be min( L, length of the std::string result) and a symbolic position below the new "
              "length is resolved backwards through the log and proved to hold exactly the byte std::string has there "
@@ -321,7 +325,8 @@ CLAIMS = {
              "dereference at the index) are proved against exact post-conditions. The four ( const char*, pos, count) "
              "character-set overloads, whose membership test is an inner loop, are decided with the same proof applied "
              "to the inner loop. sprintf(): length == min( L, result of vsnprintf) (0 on error) and byte i is byte i of the "
-             "formatter's output. Not decided: the one overload taking std::string iterators.",
+             "formatter's output. Not decided: the overloads taking std::string iterators, initializer lists through "
+             "iterators and iterator ranges of another string.",
         note="trusted base: clang front end, extractor, cv/lin.py + cv/bounds.py + cv/boolshape.py, the std::string "
              "specification table in cv/props/c11.py; sources do not alias the destination",
         also=("engine B (boolshape.py)",),
